@@ -454,6 +454,42 @@ def static_checks():
             bad.append("equality with a dict is not by tag / value content")
     except BaseException as ex:  # noqa
         bad.append("equality with a dict raised %s" % type(ex).__name__)
+    # the constructor (also the one behind dict items of add_group / set_group) is a sequence of plain set / set_group
+    # calls: two spellings of one tag in the dict are a duplicate, a non-integer tag is refused - the container that
+    # was to receive the item stays as it was
+    dup_dicts = [{11: "first", "11": "second"}, {55: "MSFT", "055": "AAPL"}, {1: "acct", FTag.Account: "other"},
+                 {"453": [{448: "p"}], 453: "1"}, {7: "x", "07": [{1: "a"}]}]
+    for d in dup_dicts:
+        for what, build in (("FIXContainer(%r)" % (d,), lambda d=d: FIXContainer(d)),
+                            ("FIXMessage('D', %r)" % (d,), lambda d=d: FIXMessage("D", d))):
+            try:
+                build()
+                bad.append("%s: two spellings of one tag accepted by the constructor" % what)
+            except DuplicatedTagError:
+                pass
+            except BaseException as ex:  # noqa
+                bad.append("%s raised %s instead of DuplicatedTagError" % (what, type(ex).__name__))
+    host = FIXContainer({11: "clord"})
+    for what, call in (("add_group(453, {448: 'p1', '448': 'p2'})", lambda: host.add_group(453, {448: "p1", "448": "p2"})),
+                       ("set_group(454, [{455: 'a'}, {455: 'b', '455': 'c'}])",
+                        lambda: host.set_group(454, [{455: "a"}, {455: "b", "455": "c"}])),
+                       ("add_group(453, {'x1': 'p'})", lambda: host.add_group(453, {"x1": "p"}))):
+        try:
+            call()
+            bad.append("%s: accepted" % what)
+        except (DuplicatedTagError, FIXMessageError):
+            pass
+        except BaseException as ex:  # noqa
+            bad.append("%s raised %s" % (what, type(ex).__name__))
+        if list(host.tags.items()) != [("11", "clord")]:
+            bad.append("%s: the refused item changed the container: %r" % (what, list(host.tags.items())))
+            host = FIXContainer({11: "clord"})
+    try:
+        ok = FIXContainer({1: "a", "2": "b", FTag.ClOrdID: "c", 5: [{1: "x"}]})
+        if list(ok.tags.keys()) != ["1", "2", "11", "5"]:
+            bad.append("constructor: keys / order of a dict without duplicates: %r" % list(ok.tags.keys()))
+    except BaseException as ex:  # noqa
+        bad.append("constructor of a dict without duplicates raised %s" % type(ex).__name__)
     return bad
 
 
